@@ -1,5 +1,6 @@
 """C01 — a cut field is exactly the text spanned by the cursor's movement."""
 import json
+import re
 from vlib import *
 import gen
 
@@ -128,6 +129,14 @@ def run(tier, seed, replay=None):
             want = lines_spec(gs, c0, c1)
             if res["ok"] != want:
                 R.violation("linewise selection %r is not the lines of %d..%d: %r" % (res["ok"][:80], c0, c1, want[:80]), c, classes=["select.linewise_last_line"])
+        elif a["sel_mode"] and a["sel_mode"].startswith("Block") and a["sel_range"]:
+            # block selection: one row per window of the editor's own select_range, empty rows included
+            ws = [(int(x), int(y)) for x, y in re.findall(r"\((\d+), (\d+)\)", a["sel_range"])]
+            rows = ["".join(gs[x:y]) for x, y in ws if x < len(gs) and y <= len(gs) and x <= y]
+            want = "\n".join(rows)
+            R.count("block_selection_checked")
+            if res["ok"] != want:
+                R.violation("block selection %r is not the rows of its windows %s: %r" % (res["ok"][:80], ws[:6], want[:80]), c)
         else:
             R.count("selected_by_model_only")
     close_servers()
